@@ -487,6 +487,7 @@ impl ConnectionEngine {
 //@@ end
 
 //@@ fn file=fe2o3-amqp/src/connection/engine.rs impl=`~impl<Io,C>ConnectionEngine<Io,C>whereIo:AsyncRead+AsyncWrite+std::fmt::Debug+SendBound+Unpin+'static,C:endpoint::Connection<State=ConnectionState>` name=wait_for_remote_close
+//@@ attr #[verifier::loop_isolation(false)]
 //@@ shape loops=loop
 //@@ attr #[verifier::exec_allows_no_decreases_clause]
 //@@ qmark
